@@ -158,6 +158,9 @@ class Check(FormulaCheck):
             exp = next((r for c, r in zip(conds, res) if tv(c)), 'ERR:#N/A')
             g = self.ev(f)
             self.expect('C12/IFS', g == exp, formula=f, conditions=conds, results=res, got=g, expected=exp)
+            if exp == 'ERR:#N/A':
+                trio = (self.ev('ISNA(%s)' % f), self.ev('IFNA(%s,"none")' % f), self.ev('ERROR.TYPE(%s)' % f), self.ev('ISERR(%s)' % f))
+                self.expect('C12/IFS:no-match-is-not-#N/A-to-ISNA-IFNA-ERROR.TYPE', trio == (True, 'none', 7, False), formula=f, got=trio)
             rec.nt(('IFS', tuple(conds), tuple(res)))
             kind = rnd.choice(['num', 'text'])
             pool = [1, 2, 3, 4.5, 2.0, -1, 0] if kind == 'num' else ['a', 'b', 'A', 'ab', '', 'B']
@@ -176,6 +179,9 @@ class Check(FormulaCheck):
             exp = next((r for c, r in zip(cases, res) if c == target), 'dflt' if hasdef else 'ERR:#N/A')
             g = self.ev(f)
             self.expect('C12/SWITCH', g == exp and (self.is_err(exp) or type(g) is type(exp)), formula=f, target=target, cases=cases, results=res, default=hasdef, got=g, expected=exp)
+            if exp == 'ERR:#N/A':
+                trio = (self.ev('ISNA(%s)' % f), self.ev('IFNA(%s,"none")' % f), self.ev('ERROR.TYPE(%s)' % f), self.ev('ISERR(%s)' % f))
+                self.expect('C12/SWITCH:no-match-is-not-#N/A-to-ISNA-IFNA-ERROR.TYPE', trio == (True, 'none', 7, False), formula=f, got=trio)
             rec.nt(('SWITCH', target, tuple(cases), tuple(res), hasdef))
             x = rnd.choice(VALS)
             a, b = rnd.choice([1, 'x', None, True, 2.5]), rnd.choice([2, 'y', False, 0])
